@@ -698,6 +698,22 @@ theorem inv_step {cfg : Cfg} {s s' : State} {l : Label} {o : Out}
         have := exact hl.1
         simpa [hda, Tx.inFlight, hnone] using this
     · cases hs
+  | moveTx =>
+    simp only [stepOut] at hs
+    split at hs
+    · split at hs
+      · simp only [Option.some.injEq, Prod.mk.injEq] at hs
+        obtain ⟨_, rfl⟩ := hs
+        exact h
+      · simp only [Option.some.injEq, Prod.mk.injEq] at hs
+        obtain ⟨_, rfl⟩ := hs
+        obtain ⟨⟨bw, modeOpen, fixedBound, ann, sizeSent, unknownFresh, unknownCfg, knownAnn⟩,
+          ⟨pre, exact, openLossless⟩, hrx⟩ := h
+        have hne := closeData_dataEnd_ne_open s.ch
+        refine ⟨⟨bw, by simp, fixedBound, ?_, by simpa using sizeSent, by simpa using unknownFresh, unknownCfg,
+          knownAnn⟩, ⟨by simpa using pre, by simp, fun h => absurd h hne⟩, hrx⟩
+        intro m hm; obtain ⟨h1, _, h3⟩ := ann m hm; exact ⟨h1, rfl, h3⟩
+    · cases hs
   | read n seg =>
     simp only [stepOut] at hs
     split at hs
